@@ -223,6 +223,26 @@ def tower(name, order, aux=None):
         res = [(lambda k: (lambda t: (fs[k](abs(t)) * (1 if (t > 0 or k % 2 == 1) else -1))))(k) for k in range(order + 1)]
         _towers[key] = res
         return res
+    if name == 'tanh':
+        # derivatives as polynomials in t = tanh x and s = sech^2 x (dt = s, ds = -2 t s): no cancellation and no overflow at any x
+        polys = [{(1, 0): 1}]
+        for k in range(order):
+            nxt = {}
+            for (a, b), c in polys[-1].items():
+                if a:
+                    nxt[(a - 1, b + 1)] = nxt.get((a - 1, b + 1), 0) + a * c
+                if b:
+                    nxt[(a + 1, b)] = nxt.get((a + 1, b), 0) - 2 * b * c
+            polys.append(nxt)
+
+        def mk(poly):
+            def f(x):
+                t, s2 = mpmath.tanh(x), mpmath.sech(x) ** 2
+                return sum((c * t ** a * s2 ** b for (a, b), c in poly.items()), mpf(0))
+            return f
+        res = [mk(q) for q in polys]
+        _towers[key] = res
+        return res
     e = exprs[name]
     ds = [e]
     for k in range(order):
@@ -351,6 +371,8 @@ def in_domain(name, x, margin=True):
         return ax < 12
     if name in ('sin', 'cos'):
         return ax < 50
+    if name == 'tanh':
+        return ax < 150          # beyond: KNOWN FINDING tanh-nested-intermediate-overflow (decided under C01)
     return True
 
 
